@@ -165,7 +165,7 @@ func buildProxyHandlerChainFunc(o *proxyHandlerOptions) func(apiHandler http.Han
 		handler = gatewayfilters.WithUpstreamInfo(handler, o.clusterManager, c.Serializer)
 		handler = gatewayfilters.WithExtraRequestInfo(handler, &request.ExtraRequestInfoFactory{LongRunningFunc: c.LongRunningFunc}, c.Serializer)
 		handler = gatewayfilters.WithTerminationMetrics(handler)
-		handler = gatewayfilters.WithRequestInfo(handler, c.RequestInfoResolver)
+		handler = gatewayfilters.WithRequestInfo(handler, c.RequestInfoResolver, c.Serializer)
 		if c.SecureServing != nil && !c.SecureServing.DisableHTTP2 && o.goawayChance > 0 {
 			handler = gatewayfilters.WithLoadPressureGoaway(handler, o.maxInflightThreshold, o.maxQPSThreshold, o.maxThroughputMBThreshold, o.goawayChance, rateMonitor, throughputMonitor)
 		}
